@@ -96,7 +96,7 @@ func (w *concWorld) drive(tag string, s Sess, ctx context.Context, holder bool) 
 	case "NeverTimeout":
 		c.TssTimeout = 30 * time.Millisecond
 		answer = false
-	case "NeverCancelled":
+	case "NeverCancelled", "CancelledBeforeEntry":
 		answer = false
 	case "RanFailed":
 		if !signing(s.Kind) {
@@ -124,6 +124,16 @@ func (w *concWorld) drive(tag string, s Sess, ctx context.Context, holder bool) 
 	proc, err := p.mkWith(es, fs, tag, s.Kind, sid, threshold)
 	if err != nil {
 		return note + "constructor failed: " + err.Error()
+	}
+	if s.Outcome == "CancelledBeforeEntry" && !holder {
+		// the constructor has got the lock; the caller gives up before it calls Execute
+		if s.Entry == "deadline" {
+			var c2 context.CancelFunc
+			ctx, c2 = context.WithDeadline(ctx, time.Now().Add(-time.Second))
+			defer c2()
+		} else if cf, ok := ctx.Value(cancelKey{}).(context.CancelFunc); ok {
+			cf()
+		}
 	}
 	done := make(chan error, 1)
 	go func() { done <- c.Execute(ctx, []tss.TssProcess{proc}, make(chan interface{}, 4)) }()
@@ -374,6 +384,8 @@ func contenderChoices(kind string) []Sess {
 	}
 	add("Refused", "coord", "")
 	add("Rerun", "peer", "")
+	add("CancelledBeforeEntry", "peer", "")
+	add("CancelledBeforeEntry", "coord", "")
 	return out
 }
 
